@@ -12,6 +12,27 @@ NOTES = "All checks are bounded-exhaustive model checking of the real Go code (h
 NOT_APPLICABLE = {}
 
 TEXT = {
+    "C10": dict(
+        engine="choice (E1)",
+        design_ref="DESIGN.md §3 C10",
+        technique="bounded-exhaustive enumeration of multiboot2 blocks generated from an AST by an independent encoder, placed flush against an inaccessible page; every decoded field compared with the AST",
+        text="9 command lines x 24 memory maps (entry sizes 24/28/32/40, 0-3 entries, every region type in {0..6, 2^32-1}, extreme addresses/lengths) x 4 ELF section tables x 8 framebuffer tags x unknown tags of odd sizes (padding) are encoded into blocks; every tag order is tried on the small blocks, duplicate tags are appended (first must win), each tag is also tried alone and absent. The block and the ELF string table end exactly at a PROT_NONE page, so any read past the end faults. VisitMemRegions, VisitElfSections, GetFramebufferInfo/RGBColorInfo and GetBootCmdLine must report exactly what was encoded.",
+        note="Only well-formed blocks; command-line tokens with two '=' are outside the statement.",
+    ),
+    "C14": dict(
+        engine="choice (E1)",
+        design_ref="DESIGN.md §3 C14",
+        technique="bounded-exhaustive enumeration of firmware memory images through the real probe + DriverInit",
+        text="~64k images (thorough: all four tables): root pointer at every admissible 16-byte slot of the search window, revision 0/2, decoys with a valid signature and bad checksum before/after, every order of the listed tables, every subset corrupted, FADT with 32-/64-bit/both DSDT pointers, DSDT valid/corrupt, a root pointer with a bad checksum only; plus the first/last admissible slots of the real 0xe0000-0xfffff area. Oracles: the pointer is found iff valid, the 32-bit root table is followed for revision 0 and the 64-bit one otherwise, the registered table map equals {tables whose bytes sum to zero} plus the DSDT of a valid FADT, each corrupt table is reported as skipped exactly once and enumeration continues.",
+        note="Identity-map seams; the revision-2 checksum is taken over the 40-byte Go struct (4 bytes after the structure kept zero).",
+    ),
+    "C15": dict(
+        engine="choice (E1)",
+        design_ref="DESIGN.md §3 C15",
+        technique="bounded-exhaustive enumeration of format token sequences x argument lists against a reference formatter through a non-storing comparing sink; allocation counter over a pre-built batch",
+        text="Formats of 1-2 tokens (full product) and 3 tokens (third free) over 38 tokens (literals, %%, %d/%x/%o/%s with widths {absent,0,1,5,31,32,33,1000}, %t, a 10^6-wide %s) x 47 argument values (every built-in integer type at 0, +-1, min, max; strings / byte slices of length 0..40; bools; float, nil, struct, uint as wrong types), with too-short and too-long argument lists, are compared byte-exactly with a strconv-based reference written from the statement. Every format string of length <=4 (5) over 9 bytes never panics. runtime.MemStats.Mallocs does not move across a pre-built batch of 5k calls (bisected to a case if it does).",
+        note="Allocation freedom is as compiled by the pinned host toolchain.",
+    ),
     "C08": dict(
         engine="sched (E3) + x86mini (E4)",
         design_ref="DESIGN.md §3 C08",
